@@ -100,6 +100,7 @@ fn main() {
     let src = fs::read_to_string(&file).expect("sharded_actor.rs");
     let mut messages = Vec::new();
     let mut handle = Vec::new();
+    let mut handle_priv: Vec<String> = Vec::new();
     let mut state = Vec::new();
     let mut config = Vec::new();
     #[derive(PartialEq)]
@@ -145,12 +146,18 @@ fn main() {
                 }
             }
             Sec::Handle | Sec::State | Sec::Config => {
-                let is_pub = t.starts_with("pub fn ") || t.starts_with("pub async fn ");
+                // visible outside the module: `pub`, `pub(crate)`, `pub(super)`, `pub(in …)`
+                let is_pub = t.starts_with("pub fn ")
+                    || t.starts_with("pub async fn ")
+                    || (t.starts_with("pub(") && (t.contains(") fn ") || t.contains(") async fn ")));
+                // a PRIVATE fn of ShardHandle is reachable only through the module's own fns: it is listed
+                // (informational, `HANDLE_PRIVATE_FNS`), it cannot be an entry point nobody drives
                 let is_priv_handle = sec == Sec::Handle && (t.starts_with("async fn ") || t.starts_with("fn "));
                 if is_pub || is_priv_handle {
                     let after = t.split("fn ").nth(1).unwrap_or("");
                     let name: String = after.chars().take_while(|c| c.is_alphanumeric() || *c == '_').collect();
                     match sec {
+                        Sec::Handle if !is_pub => handle_priv.push(name),
                         Sec::Handle => handle.push(name),
                         Sec::State => state.push(name),
                         _ => config.push(name),
@@ -318,9 +325,10 @@ fn main() {
     }
     let list = |v: &Vec<String>| v.iter().map(|s| format!("{:?}", s)).collect::<Vec<_>>().join(", ");
     let out = format!(
-        "pub const SHARD_MESSAGES: &[&str] = &[{}];\npub const HANDLE_FNS: &[&str] = &[{}];\npub const STATE_PUB_FNS: &[&str] = &[{}];\npub const CONFIG_PUB_FNS: &[&str] = &[{}];\n",
+        "pub const SHARD_MESSAGES: &[&str] = &[{}];\npub const HANDLE_FNS: &[&str] = &[{}];\npub const HANDLE_PRIVATE_FNS: &[&str] = &[{}];\npub const STATE_PUB_FNS: &[&str] = &[{}];\npub const CONFIG_PUB_FNS: &[&str] = &[{}];\n",
         list(&messages),
         list(&handle),
+        list(&handle_priv),
         list(&state),
         list(&config)
     );
